@@ -97,15 +97,19 @@ const RULES: &[&[(&str, &str)]] = &[
 ];
 const BODY: &[&str] = &["a", "b", "c", "a", "zz", "b2", "  a", "C", "", "x1", "é1", "жжж", "100"];
 
-fn plan_file(rng: &mut Rng, path: &str, comment: &'static str, names: &mut usize, affects_pool: &[String], allow_nest: bool) -> FilePlan {
+fn plan_file(rng: &mut Rng, path: &str, comment: &'static str, names: &mut usize, affects_pool: &[String], allow_nest: bool, lua: Option<&str>) -> FilePlan {
     let mut lines: Vec<String> = vec![];
     let mut blocks = vec![];
     for _ in 0..rng.below(3) { lines.push(format!("code {}", lines.len())); }
     let nblocks = 1 + rng.below(3);
+    let mut used_names: Vec<String> = vec![];
     for _ in 0..nblocks {
-        let name = format!("b{}", *names);
-        *names += 1;
+        // one block in six repeats the name of an earlier block of the same file (a reference to that name is satisfied by
+        // ANY modified block carrying it)
+        let name = if !used_names.is_empty() && rng.chance(1, 6) { rng.pick(&used_names).clone() } else { let n = format!("b{}", *names); *names += 1; n };
+        used_names.push(name.clone());
         let mut attrs = format!(" name=\"{name}\"");
+        if lua.is_some() && rng.chance(1, 4) { attrs += &format!(" check-lua=\"{}\"", lua.unwrap()); }
         if !affects_pool.is_empty() && rng.chance(1, 2) {
             let k = 1 + rng.below(2);
             let refs: Vec<String> = (0..k).map(|_| rng.pick(affects_pool).clone()).collect();
@@ -120,14 +124,25 @@ fn plan_file(rng: &mut Rng, path: &str, comment: &'static str, names: &mut usize
         lines.push(format!("{indent}{comment} {noise}<block{attrs}>{tail}"));
         let s = lines.len();
         let nbody = rng.below(5);
-        let nest_at = if allow_nest && rng.chance(1, 4) { Some(rng.below(nbody + 1)) } else { None };
+        // (where nesting proper is not wanted, one block in eight still shares its start-tag comment with a second tag)
+        let share_only = !allow_nest && tail.is_empty() && rng.chance(1, 8);
+        let nest_at = if allow_nest && rng.chance(1, 4) { Some(rng.below(nbody + 1)) } else if share_only { Some(0) } else { None };
         let mut inner: Option<BlockGeo> = None;
         for k in 0..=nbody {
             if nest_at == Some(k) {
                 let iname = format!("b{}", *names);
                 *names += 1;
-                lines.push(format!("{indent}  {comment} <block name=\"{iname}\">"));
-                let is = lines.len();
+                used_names.push(iname.clone());
+                // an inner block that starts right away may have its start tag in the SAME comment as the outer one (two tags,
+                // one line): its tag lies outside the outer tag and outside the outer content
+                let is = if k == 0 && tail.is_empty() && (share_only || rng.chance(1, 2)) {
+                    let irule = ["", " keep-sorted=\"desc\"", " keep-unique"][rng.below(3)];
+                    lines[s - 1].push_str(&format!(" <block name=\"{iname}\"{irule}>"));
+                    s
+                } else {
+                    lines.push(format!("{indent}  {comment} <block name=\"{iname}\">"));
+                    lines.len()
+                };
                 for _ in 0..rng.below(3) { lines.push(rng.pick(BODY).to_string()); }
                 lines.push(format!("{indent}  {comment} </block>"));
                 inner = Some(BlockGeo { name: iname, s: is, e: lines.len(), depth: 1 });
@@ -188,22 +203,23 @@ fn build_script(rng: &mut Rng, plan: &FilePlan, targeted: bool) -> Script {
         let class = rng.below(8);
         let mut reserve = |lo: usize, hi: usize, reserved: &mut Vec<bool>| { for k in lo.saturating_sub(1)..=(hi + 1).min(n) { reserved[k] = true; } };
         match class {
-            0 if e > s + 1 => { let j = s + 1 + rng.below(e - s - 1); ops[j] = LineOp::Add; reserve(j, j, &mut reserved); classes.push(json!({"block": b.name, "class": "inside-add", "content": true, "listed": true})); }
-            1 if e > s + 1 => { let j = s + 1 + rng.below(e - s - 1); ops[j] = LineOp::Edit(mutate_line(rng, &plan.lines[j])); reserve(j, j, &mut reserved); classes.push(json!({"block": b.name, "class": "inside-edit", "content": true, "listed": true})); }
-            2 => { let j = s + 1 + rng.below(e - s); dels_before[j].push(format!("gone {}", rng.below(100))); if rng.chance(1, 2) { dels_before[j].push("gone too".into()); } reserve(j, j, &mut reserved); classes.push(json!({"block": b.name, "class": "inside-del", "content": true, "listed": true})); }
+            0 if e > s + 1 => { let j = s + 1 + rng.below(e - s - 1); ops[j] = LineOp::Add; reserve(j, j, &mut reserved); classes.push(json!({"block": b.name, "s": b.s, "class": "inside-add", "content": true, "listed": true})); }
+            1 if e > s + 1 => { let j = s + 1 + rng.below(e - s - 1); ops[j] = LineOp::Edit(mutate_line(rng, &plan.lines[j])); reserve(j, j, &mut reserved); classes.push(json!({"block": b.name, "s": b.s, "class": "inside-edit", "content": true, "listed": true})); }
+            2 => { let j = s + 1 + rng.below(e - s); dels_before[j].push(format!("gone {}", rng.below(100))); if rng.chance(1, 2) { dels_before[j].push("gone too".into()); } reserve(j, j, &mut reserved); classes.push(json!({"block": b.name, "s": b.s, "class": "inside-del", "content": true, "listed": true})); }
             3 => {
                 // attribute edit inside the start tag: selected, content not modified (if nothing else touches it)
                 // (variants: a value shortened; the last attribute / a blank removed right before `>`, so that only the
                 // closing `>` is marked; a character inserted right before `>`)
                 let l = &plan.lines[s];
-                let old = match rng.below(4) {
+                let shared = plan.blocks.iter().filter(|x| x.s == b.s).count() > 1;
+                let old = match if shared { 0 } else { rng.below(4) } {
                     1 if l.ends_with('>') => format!("{} gone=\"1\">", &l[..l.len() - 1]),
                     2 if l.ends_with('>') => format!("{} >", &l[..l.len() - 1]),
                     3 if l.ends_with("\">") => format!("{}>", &l[..l.len() - 2]),
                     _ => l.replace(&format!("name=\"{}\"", b.name), &format!("name=\"{}X\"", b.name)),
                 };
                 ops[s] = LineOp::Edit(old); reserve(s, s, &mut reserved);
-                classes.push(json!({"block": b.name, "class": "tag-attr-edit", "content": false, "listed": true}));
+                classes.push(json!({"block": b.name, "s": b.s, "class": "tag-attr-edit", "content": false, "listed": true}));
             }
             4 => {
                 // edit of the comment text before the `<` on the tag's line: neither
@@ -211,16 +227,16 @@ fn build_script(rng: &mut Rng, plan: &FilePlan, targeted: bool) -> Script {
                 // on a long tag line the far end of the line is edited as well (two separate edits around the tag)
                 if old.ends_with("pad ") { old.truncate(old.len() - 2); old.push_str("X "); }
                 ops[s] = LineOp::Edit(old); reserve(s, s, &mut reserved);
-                classes.push(json!({"block": b.name, "class": "tag-line-noise-edit", "content": false, "listed": false}));
+                classes.push(json!({"block": b.name, "s": b.s, "class": "tag-line-noise-edit", "content": false, "listed": false}));
             }
             5 => {
                 // edit confined to the end-tag line: neither
                 let old = format!("{} trailing", plan.lines[e]);
                 ops[e] = LineOp::Edit(old); reserve(e, e, &mut reserved);
-                classes.push(json!({"block": b.name, "class": "end-tag-edit", "content": false, "listed": false}));
+                classes.push(json!({"block": b.name, "s": b.s, "class": "end-tag-edit", "content": false, "listed": false}));
             }
-            6 if s >= 2 => { let j = rng.below(s - 1); if !all_tag_lines.contains(&j) { ops[j] = LineOp::Edit(mutate_line(rng, &plan.lines[j])); classes.push(json!({"block": b.name, "class": "outside-before", "far": true})); } }
-            7 if e + 2 < n => { let j = e + 2 + rng.below(n - e - 2); if !all_tag_lines.contains(&j) { ops[j] = LineOp::Add; classes.push(json!({"block": b.name, "class": "outside-after", "far": true})); } }
+            6 if s >= 2 => { let j = rng.below(s - 1); if !all_tag_lines.contains(&j) { ops[j] = LineOp::Edit(mutate_line(rng, &plan.lines[j])); classes.push(json!({"block": b.name, "s": b.s, "class": "outside-before", "far": true})); } }
+            7 if e + 2 < n => { let j = e + 2 + rng.below(n - e - 2); if !all_tag_lines.contains(&j) { ops[j] = LineOp::Add; classes.push(json!({"block": b.name, "s": b.s, "class": "outside-after", "far": true})); } }
             _ => {}
         }
     }
@@ -303,7 +319,12 @@ pub fn generate(_ctx: &mut Ctx, seed: u64, i: usize, mode: &str) -> Case {
     pool.push("nofile.py:b0".into());
     pool.push(" : b1 ".into());
     let allow_nest = mode != "select";
-    let mut plans: Vec<FilePlan> = paths.iter().map(|(p, c)| plan_file(&mut rng, p, c, &mut names, &pool, allow_nest)).collect();
+    // mode `flags`: one block in four also carries a (passing) script rule, so that an asynchronous validator is in the run
+    let lua_script = format!("{}/nil.lua", crate::gen_lua::lua_dir());
+    let lua = if mode == "flags" { Some(lua_script.as_str()) } else { None };
+    let mut plans: Vec<FilePlan> = paths.iter().map(|(p, c)| plan_file(&mut rng, p, c, &mut names, &pool, allow_nest, lua)).collect();
+    let n_lua: usize = plans.iter().map(|p| p.lines.iter().filter(|l| l.contains(" check-lua=\"")).count()).sum();
+    let asyncs: Vec<Value> = (0..n_lua).map(|_| json!({"v": "check-lua", "arg": lua_script, "out": Value::Null})).collect();
     // one file in six separates the tag word from its first attribute by a tab in EVERY tag of the file (any white space will do)
     for plan in plans.iter_mut() {
         if rng.chance(1, 6) {
@@ -371,6 +392,7 @@ pub fn generate(_ctx: &mut Ctx, seed: u64, i: usize, mode: &str) -> Case {
         diff: Some(diff),
         enabled,
         disabled,
+        asyncs,
         patterns: vec!["^[a-z0-9]+$".to_string()],
         meta: json!({"gen": "diff", "mode": mode, "i": i, "u": u, "files": meta_files, "globs": with_globs, "glob_files": if with_globs { json!(allow) } else { Value::Null }}),
         ..Default::default()
